@@ -125,10 +125,15 @@ func (pw *PlaceWins) Select(ctx context.Context, m *MonteCarloAI, p *tak.Positio
 	if move := placeWinMove(&m.c, p); move.Type != 0 {
 		out, e := p.MovePreallocated(move, pw.uniform.alloc)
 		if e != nil {
-			panic("placeWinMove: bad move")
+			// The mover may have no flat stones left in reserve;
+			// a capstone completes the road just as well.
+			move.Type = tak.PlaceCapstone
+			out, e = p.MovePreallocated(move, pw.uniform.alloc)
 		}
-		pw.uniform.alloc = p
-		return out
+		if e == nil {
+			pw.uniform.alloc = p
+			return out
+		}
 	}
 	return pw.uniform.Select(ctx, m, p)
 }
